@@ -74,6 +74,7 @@ type Config struct {
 	prefix       []int
 	split        int
 	Props        map[string]bool
+	AssertPrefixes []string
 	ExactSwr     bool
 }
 
